@@ -63,7 +63,12 @@ func (cache *Cache) Get(keyID string) ([]byte, bool) {
 	defer cache.mutex.RUnlock()
 	value, ok := cache.lru.Get(keyID)
 	if ok {
-		return value.([]byte), ok
+		// Add(keyID, nil) is how the keystore purges an entry: report it as absent
+		// so that the key is loaded from the storage again instead of failing on empty data.
+		if data := value.([]byte); data != nil {
+			return data, true
+		}
+		return nil, false
 	}
 	return nil, ok
 }
